@@ -3,7 +3,7 @@
    sumor map to the OCaml types and andb/orb are inlined; N, positive, Z, nat, ascii, string
    stay the extracted inductive types.  Extraction is never used to establish a theorem. *)
 Require Import LC.model.Prims LC.model.Tables LC.model.Board LC.model.Text LC.model.Fen
-  LC.model.San LC.model.Render LC.model.Game LC.spec.Chess LC.spec.Sym.
+  LC.model.San LC.model.Render LC.model.Game LC.model.Pgn LC.spec.Chess LC.spec.Sym.
 Require ExtrOcamlBasic.
 Extraction Language OCaml.
 Extraction "../oracle/model.ml"
@@ -22,6 +22,7 @@ Extraction "../oracle/model.ml"
   San.move_props San.san_string San.get_move_ambiguity_type
   Render.render_straight Render.render_flipped Render.render_bb
   Game.game_from_board Game.game_step Game.history_string Game.as_pgn_unwrapped Game.from_pgn_tokens
-  Game.position_counter Game.get_position_on_move Game.print_gstatus Game.san_list Game.print_rtag
+  Pgn.from_pgn_text Pgn.scan_moves Pgn.moves_part Pgn.scan_result Pgn.header_result Pgn.scan_tags
+  Game.default_tags Game.position_counter Game.get_position_on_move Game.print_gstatus Game.san_list Game.print_rtag
   Chess.legal Chess.gen Chess.apply Chess.valid Chess.board_status Chess.checkers Chess.in_check Chess.perft
   Chess.attackers Chess.king_sq Sym.flip Sym.mirror.
